@@ -40,9 +40,9 @@ from checks import c14
 LEVEL = "exploration"
 
 ALL_OPS = '{"id", "get", "assign", "newkey", "update", "updid", "add", "del", "merge", "mergeas"}'
-KNOWN_LITS = {2, 25, 54, 41, 43}  # literals that trigger the known finding LSP (leading space); `<<` (merge key) and
+KNOWN_LITS = {2, 25, 54, 41, 43, 18, 35, 11, 36, 19, 20}  # literals that trigger the known finding LSP (leading space); `<<` (merge key) and
                                   # NEL as a new key / value are left out (exotic, meaning on reload debatable)
-PAL_OK = "{" + ",".join(str(i) for i in range(1, 61) if i not in (19, 25, 40)) + "}"      # 40 = "0o17": known finding OCT; 25 = " a": LSP; 19 = "a,b": FLOWKEY
+PAL_OK = "{" + ",".join(str(i) for i in range(1, 61) if i not in (8, 19, 23, 25, 40)) + "}"      # 40 = "0o17", 8 = "0x1" (literal 11): known finding OCT; 25 = " a": LSP; 19 = "a,b" (literals 36 ",", 19 "[", 20 "{k}"): FLOWIND; 23 = "|" (and literals 18 "|", 35 ">"): KEYBLK
 LITS_OK = "{" + ", ".join(str(i) for i in range(1, 61) if i not in KNOWN_LITS) + "}"
 
 
@@ -76,7 +76,7 @@ def scopes(q):
         ("simk", cfg_text("{1, 13, 25}", 4, 1, '{"plain", "single"}', both, 1000, '{"assign", "newkey", "update", "add"}',
                           "{2, 25, 54}", "{0, 2}", sim=True), "num=%d" % (40 if q else 300), 1),
         # key anchors, `get` of subtrees holding aliases, "0o17": exhibits AKEY / SUBALIAS / OCT
-        ("simk2", cfg_text("{1, 19, 40}", 6, 1, '{"plain", "single"}', both, 1000, '{"id", "get", "del", "assign"}', "{1}", "{2}",
+        ("simk2", cfg_text("{1, 8, 19, 23, 40}", 6, 1, '{"plain", "single"}', both, 1000, '{"id", "get", "del", "assign"}', "{1}", "{2}",
                            sim=True, avoid='{"K1", "K2", "HC"}'), "num=%d" % (80 if q else 600), 1),
     ]
 
@@ -207,23 +207,28 @@ def classify(c, events, k):
                 return tok[:2] + t.lstrip(" ").encode().hex() if len(t) > 1 else tok
             return tok
 
-        def octal(tok):          # OCT: the only difference is that "0o<octal>" strings came back as integers
+        def octal(tok):          # OCT: the only difference is that "0o<octal>" / "0x<hex>" strings came back as integers
             if tok.startswith("s:"):
                 t = bytes.fromhex(tok[2:]).decode("utf-8", "replace")
                 if re.fullmatch(r"0o[0-7]+", t):
                     return "n:%d" % int(t[2:], 8)
+                if re.fullmatch(r"0x[0-9a-fA-F]+", t):
+                    return "n:%d" % int(t[2:], 16)
             return tok
         if [strip(t) for t in ev[0]["v"]] == ev[1]["v"] or [strip(t, ("s:",)) for t in ev[0]["v"]] == ev[1]["v"] \
                 or [strip(t, ("k:",)) for t in ev[0]["v"]] == ev[1]["v"]:
             return "LSP"
         if [octal(t) for t in ev[0]["v"]] == ev[1]["v"]:
             return "OCT"
-        # FLOWKEY: a key holding a flow indicator is printed unquoted inside a flow mapping
+        # KEYBLK: a key that is exactly `|` or `>` is printed unquoted and comes back as the empty key
+        if [("k:" if t in ("k:7c", "k:3e") else t) for t in ev[0]["v"]] == ev[1]["v"]:
+            return "KEYBLK"
+        # FLOWIND: a key or string holding a flow indicator is printed unquoted inside a flow collection
         for tok in ev[0]["v"]:
-            if tok.startswith("k:"):
+            if tok[:2] in ("k:", "s:"):
                 t = bytes.fromhex(tok[2:]).decode("utf-8", "replace")
-                if re.search(r"[,\[\]{}]", t) and re.search(r"[{,]\s*(&\w+ )?" + re.escape(t) + ":", c.get("yaml_out", "")):
-                    return "FLOWKEY"
+                if re.search(r"[,\[\]{}]", t) and re.search(r"[\[{,]\s*(&\w+ )?" + re.escape(t) + r"\s*[:,\]}]", c.get("yaml_out", "")):
+                    return "FLOWIND"
     return ""
 
 
